@@ -61,6 +61,7 @@ type havoc struct {
 	content func(loc string) string // nil: unknown (select sym loc)
 	done    map[string]bool
 	inst    map[string][]int // loc -> tags at which the frame instance was emitted
+	calleeFrame bool // created from a callee's assigns clause
 	relevant func(loc string) bool // syntactic filter: false = the frame instance at loc is vacuous
 }
 
@@ -131,7 +132,8 @@ type FnVC struct {
 	privEpochs   map[int]*privEpoch
 	epochTag     map[int]int
 	baseCache    map[string]*Heap
-	localRoots   []string // roots of allocations that never escape the function
+	localRoots   []string // (use visibleLocalRoots) roots of allocations that never escape the function
+	localRootTag []int
 	private      string // root term of memory that unknown callees cannot reach
 	ifaceFrameProps []string
 	lazies  []*lazyQuant
@@ -362,6 +364,11 @@ func (fv *FnVC) loadRaw(h *Heap, loc string) string {
 		return fv.loadExpanded(h, loc)
 	}
 	for _, hv := range h.havocs {
+		if fv.quiet > 0 && hv.calleeFrame {
+			// loads made while evaluating assumed clauses do not need the callee-frame
+			// instances at their locations (omitting hypotheses is sound)
+			continue
+		}
 		fv.instHavoc(hv, loc)
 	}
 	return "(select " + h.term + " " + loc + ")"
@@ -983,4 +990,15 @@ func (pe *privEpoch) relevant(fv *FnVC, key string) func(string) bool {
 		// named or computed location: cannot tell
 		return !strings.HasPrefix(loc, "(LElem ")
 	}
+}
+
+// visibleLocalRoots: local cells allocated on a path to the current point.
+func (fv *FnVC) visibleLocalRoots() []string {
+	var out []string
+	for i, r := range fv.localRoots {
+		if fv.visible(fv.localRootTag[i]) {
+			out = append(out, r)
+		}
+	}
+	return out
 }
